@@ -157,11 +157,13 @@ let rec last l d =
                 | [] -> a
                 | _ :: _ -> last l0 d)
 
-(** val rev : 'a1 list -> 'a1 list **)
+(** val removelast : 'a1 list -> 'a1 list **)
 
-let rec rev = function
+let rec removelast = function
 | [] -> []
-| x :: l' -> app (rev l') (x :: [])
+| a :: l0 -> (match l0 with
+              | [] -> []
+              | _ :: _ -> a :: (removelast l0))
 
 (** val concat : 'a1 list list -> 'a1 list **)
 
@@ -4891,11 +4893,11 @@ let rfc_rpsi pt bits overrun =
       (S (S O))))
   in
   let body =
-    match rev bits with
+    match bits with
     | [] -> []
-    | last0 :: r ->
-      app (rev r)
-        ((N.mul (N.div last0 (N.pow (Npos (XO XH)) overrun))
+    | _ :: _ ->
+      app (removelast bits)
+        ((N.mul (N.div (last bits N0) (N.pow (Npos (XO XH)) overrun))
            (N.pow (Npos (XO XH)) overrun)) :: [])
   in
   app
@@ -6749,6 +6751,13 @@ let fci_violations k f =
      then []
      else FciWrongFeedbackPacketType :: [])
     (match f with
+     | FNack adds ->
+       let s = rfc_set adds in
+       if N.ltb (Npos (XI (XO (XI (XI (XI (XI (XI (XI (XI (XI (XI (XI (XI (XI
+            (XI XH))))))))))))))))
+            (N.of_nat (length (rfc_nack_words (length s) s)))
+       then TooManyNack :: []
+       else []
      | FFir adds ->
        if N.ltb (Npos (XO (XI (XI (XI (XI (XI (XI (XI (XI (XI (XI (XI (XI (XI
             XH))))))))))))))) (N.of_nat (length (rfc_fir_map adds)))
@@ -7020,6 +7029,11 @@ let spec_parse2 e l =
          EmptyString)))))))))))))))), (fci_ref t O l)) :: []
      | _ -> [])
 
+(** val representable_full : member -> bool **)
+
+let representable_full m =
+  (&&) (representable m) (negb (m_oversize m))
+
 (** val spec_build2 : member -> kv list **)
 
 let spec_build2 m =
@@ -7042,21 +7056,21 @@ let spec_build2 m =
     true, false)), (String ((Ascii (false, false, true, true, false, true,
     true, false)), (String ((Ascii (true, false, true, false, false, true,
     true, false)), EmptyString)))))))))))))))))))))))))))))))))))),
-    (obs_bool (representable m))) :: (((String ((Ascii (true, true, false,
-    false, true, true, true, false)), (String ((Ascii (false, false, false,
-    false, true, true, true, false)), (String ((Ascii (true, false, true,
-    false, false, true, true, false)), (String ((Ascii (true, true, false,
-    false, false, true, true, false)), (String ((Ascii (false, true, true,
-    true, false, true, false, false)), (String ((Ascii (false, true, true,
-    false, true, true, true, false)), (String ((Ascii (true, false, false,
-    true, false, true, true, false)), (String ((Ascii (true, true, true,
-    true, false, true, true, false)), (String ((Ascii (false, false, true,
-    true, false, true, true, false)), (String ((Ascii (true, false, false,
-    false, false, true, true, false)), (String ((Ascii (false, false, true,
-    false, true, true, true, false)), (String ((Ascii (true, false, false,
-    true, false, true, true, false)), (String ((Ascii (true, true, true,
-    true, false, true, true, false)), (String ((Ascii (false, true, true,
-    true, false, true, true, false)), (String ((Ascii (true, true, false,
-    false, true, true, true, false)),
+    (obs_bool (representable_full m))) :: (((String ((Ascii (true, true,
+    false, false, true, true, true, false)), (String ((Ascii (false, false,
+    false, false, true, true, true, false)), (String ((Ascii (true, false,
+    true, false, false, true, true, false)), (String ((Ascii (true, true,
+    false, false, false, true, true, false)), (String ((Ascii (false, true,
+    true, true, false, true, false, false)), (String ((Ascii (false, true,
+    true, false, true, true, true, false)), (String ((Ascii (true, false,
+    false, true, false, true, true, false)), (String ((Ascii (true, true,
+    true, true, false, true, true, false)), (String ((Ascii (false, false,
+    true, true, false, true, true, false)), (String ((Ascii (true, false,
+    false, false, false, true, true, false)), (String ((Ascii (false, false,
+    true, false, true, true, true, false)), (String ((Ascii (true, false,
+    false, true, false, true, true, false)), (String ((Ascii (true, true,
+    true, true, false, true, true, false)), (String ((Ascii (false, true,
+    true, true, false, true, true, false)), (String ((Ascii (true, true,
+    false, false, true, true, true, false)),
     EmptyString)))))))))))))))))))))))))))))), (OL
     (map obs_werr (violations m)))) :: []))
